@@ -97,6 +97,17 @@ class Net:
         d["issuer"] = ("sha256AndDigest", sc.hashed_id8(self.root[0]))
         self.xaa_r = (d, self.xaa_r[1])
         self.xat_ar = self.cert(self.xaa_r, U, None, None, n)
+        # attacker authority naming the genuine root (and the genuine AA) as issuer but signed with ITS OWN key - it
+        # verifies only under its own verification key - and tickets under it (an insider can put such a certificate into
+        # the signed requestedCertificate field of an authentic message)
+        ko = self.pki.new_key()
+        tbs = sc.make_tbs("xaa-own", [36], [("all", 1)], n - 1000, ("hours", 24), self.pki.pub(ko))
+        self.xaa_own = (sc.make_cert(self.pki, tbs, ("sha256AndDigest", sc.hashed_id8(self.root[0])), ko), ko)
+        self.xat_own = self.cert(self.xaa_own, U, None, None, n)
+        ko2 = self.pki.new_key()
+        tbs2 = sc.make_tbs("xaa-own2", [36], [("all", 1)], n - 1000, ("hours", 24), self.pki.pub(ko2))
+        self.xaa_own2 = (sc.make_cert(self.pki, tbs2, ("sha256AndDigest", sc.hashed_id8(self.aa[0])), ko2), ko2)
+        self.xat_own2 = self.cert(self.xaa_own2, U, None, None, n)
 
     def station(self, mid, own=None, known=(), enabled=True, with_vs=True, reg=None, roots=None, aas=None, own_issuer=None,
                 with_sign_service=True, ego=(413800000, 21100000)):
@@ -389,9 +400,11 @@ def reqcert_sequences(ctx, net: Net, frames: dict, sender):
     resigned_aa = copy.deepcopy(net.aa[0])
     resigned_aa["signature"] = net.pki.sign(net.xroot[1], sc.enc_tbs_cert(resigned_aa["toBeSigned"]))
     offered = [("xroot", net.xroot[0]), ("xaa", net.xaa[0]), ("xaa_naming_root", net.xaa_r[0]), ("aa", net.aa[0]),
-               ("root", net.root[0]), ("aa_resigned", resigned_aa), ("xat", net.xat[0]), ("xat_self", net.xat_self[0])]
+               ("root", net.root[0]), ("aa_resigned", resigned_aa), ("xat", net.xat[0]), ("xat_self", net.xat_self[0]),
+               ("xaa_own_key_naming_root", net.xaa_own[0]), ("xaa_own_key_naming_aa", net.xaa_own2[0])]
     attack = []
-    for tag, tk in (("xat_r", net.xat_r), ("xat", net.xat), ("xat_ar", net.xat_ar), ("xat_self", net.xat_self)):
+    for tag, tk in (("xat_r", net.xat_r), ("xat", net.xat), ("xat_ar", net.xat_ar), ("xat_self", net.xat_self),
+                    ("xat_own", net.xat_own), ("xat_own2", net.xat_own2)):
         for form in ("certificate", "digest"):
             attack.append(((f"attacker_{tag}_{form}", "reqcert"),
                            secured_frame(net, basic, tk, form, 36, gen, plain[:-4] + bytes(ctx.rng.randrange(256) for _ in range(4)),
